@@ -1051,9 +1051,21 @@ func (bc *Blockchain) resetStateInternal(height uint32, stage stateChangeStage) 
 			keysCnt             = new(int)
 		)
 		for i := height + 1; i <= currHeight; i++ {
-			_, err := upperCache.DeleteBlock(bc.GetHeaderHash(i))
+			hash := bc.GetHeaderHash(i)
+			hdr, err := bc.GetHeader(hash)
+			if err != nil {
+				return fmt.Errorf("error while retrieving header %d: %w", i, err)
+			}
+			_, err = upperCache.DeleteBlock(hash)
 			if err != nil {
 				return fmt.Errorf("error while removing block %d: %w", i, err)
+			}
+			// DeleteBlock drops the header along with the block, but the header chain
+			// must stay readable until SYSCurrentHeader is moved (see below), otherwise
+			// an interrupted reset can't be continued.
+			err = upperCache.StoreHeader(hdr)
+			if err != nil {
+				return fmt.Errorf("error while storing header %d: %w", i, err)
 			}
 			blocksCnt++
 			if blocksCnt == persistBatchSize {
